@@ -17,12 +17,21 @@
 (*             inside the inscribed cylinder: inv = correlation between    *)
 (*             the result and its rotation by 360/n (1e-6), dens =         *)
 (*             |sum(result) - sum(map)| / sum(map) (1e-6)                  *)
+(*  "dtype"    a map is a function from voxels to values; how the values are  *)
+(*             stored (int8, int16, bool, float32, float64) is not part of  *)
+(*             it.  The same integer-valued map is rotated by a generic     *)
+(*             rotation in every storage type: rot[i] = largest deviation   *)
+(*             from the float64 result relative to the value range (1e-6);  *)
+(*             the same template is placed for the same particle list:      *)
+(*             place[i] = number of container voxels that differ from the   *)
+(*             float64 container;  stamped = voxels stamped at all          *)
 (* Interpolation accuracy is not decided, only bounded: the thresholds are *)
 (* constants of the configuration (DESIGN section 4, C14).                 *)
 (***************************************************************************)
 EXTENDS Integers, Sequences, TLC, Json, IOUtils
 
-CONSTANTS ComTol,       \* 1e-4 voxel
+CONSTANTS DtypeTol,     \* 1e-6 of the value range
+          ComTol,       \* 1e-4 voxel
           BackMin,      \* 1e-6 correlation
           SymMin,       \* 1e-6 correlation
           DensTol       \* 1e-6 relative
@@ -42,7 +51,13 @@ SymFailing(e) == IF e.inv < SymMin THEN "C14_SymInvariant"
                  ELSE IF e.dens < 0 \/ e.dens > DensTol THEN "C14_SymKeepsDensity"
                  ELSE "none"
 
+DtypeFailing(e) == IF \E i \in DOMAIN e.rot : e.rot[i] < 0 \/ e.rot[i] > DtypeTol THEN "C14_StorageTypeIndependentRotation"
+                   ELSE IF \E i \in DOMAIN e.place : e.place[i] # 0 THEN "C14_StorageTypeIndependentPlacement"
+                   ELSE IF e.stamped <= 0 THEN "C14_PlaceStamps"
+                   ELSE "none"
+
 Failing(e) == CASE e.kind = "rotblob" -> RotFailing(e)
+                [] e.kind = "dtype" -> DtypeFailing(e)
                 [] e.kind = "sym" -> SymFailing(e)
 
 TraceInit == /\ tid \in 1..Len(Traces)
